@@ -325,9 +325,8 @@ def addressed_selection(ctx, rule='C07.R4', only=None):
 
 
 def run(ctx):
-    from .configtime import no_lazily_filled_attributes as _no_lazy, no_state_outside_objects as _no_state2
-    _no_lazy(ctx, 'C07.R1', ('Slicer', 'PlateSlicer', 'Plate'))
-    _no_state2(ctx, 'C07.R1', classes=('Slicer', 'PlateSlicer', 'Plate'))
+    from .configtime import derived_values as _derived
+    _derived(ctx, 'C07.R1', ('Slicer', 'PlateSlicer', 'Plate'))
     # whatever the plate-level transfers compute themselves (a fail-early total, a pre-check) is unit-consistent
     from . import targets as _targets
     from .. import uscan as _uscan2
